@@ -81,6 +81,14 @@ func main() {
 	}
 	r := newReport(id, *tier, seed)
 	configs := [][2]string{{"", ""}}
+	// the properties whose rules read the terminal writer also look at its Windows sibling on every run
+	// (writer_windows.go is invisible to a linux build); the other configurations are for the thorough tier
+	switch id {
+	case "C03", "C04", "C13", "C15":
+		if *tier != "thorough" {
+			configs = append(configs, [2]string{"windows", "amd64"})
+		}
+	}
 	if *tier == "thorough" {
 		configs = append(configs, [2]string{"windows", "amd64"}, [2]string{"darwin", "arm64"}, [2]string{"linux", "386"})
 	}
